@@ -30,6 +30,11 @@ pub enum Bad {
     InShortBoth,
     /// the same for the output buffers
     OutShortBoth,
+    /// a mask of the right length with every channel off (inputs and outputs of the inactive
+    /// channels empty) and the wrong number of output channels: n-1, n+1, 0
+    AllOffOutChans(i8),
+    /// the same with the wrong number of input channels
+    AllOffInChans(i8),
 }
 
 #[derive(Clone, Copy, Debug, PartialEq)]
@@ -38,6 +43,10 @@ pub enum Op {
     P,
     /// process_into_buffer with buffers sized exactly input/output_frames_next
     Px,
+    /// process_into_buffer where every channel is handed the very same input slice (same
+    /// pointer: mono material routed to all channels); the data is noise channel 0 whatever the
+    /// signal of the run, so that a single-channel twin sees the same samples
+    Pa,
     /// set_resample_ratio_relative(x, ramp)
     R(f64, bool),
     /// set_resample_ratio(v, ramp)
@@ -91,6 +100,7 @@ impl Op {
         match self {
             Op::P => "P".into(),
             Op::Px => "Px".into(),
+            Op::Pa => "Pa".into(),
             Op::R(x, r) => format!("R({:?},{})", x, b(*r)),
             Op::Ra(x, r) => format!("Ra({:?},{})", x, b(*r)),
             Op::C(k) => format!("C({})", k),
@@ -117,6 +127,8 @@ impl Op {
                 Bad::MaskedOutShort(m, c) => format!("BAD(maskedoutshort,{:b},{})", m, c),
                 Bad::InShortBoth => "BAD(inshortboth)".to_string(),
                 Bad::OutShortBoth => "BAD(outshortboth)".to_string(),
+                Bad::AllOffOutChans(d) => format!("BAD(alloffoutchans,{})", delta(*d)),
+                Bad::AllOffInChans(d) => format!("BAD(alloffinchans,{})", delta(*d)),
             },
         }
     }
@@ -147,6 +159,7 @@ impl Op {
         Ok(match (name, args.len()) {
             ("P", 0) => Op::P,
             ("Px", 0) => Op::Px,
+            ("Pa", 0) => Op::Pa,
             ("Z", 0) => Op::Z,
             ("W", 0) => Op::W,
             ("R", 2) => Op::R(args[0].parse().map_err(|_| err())?, flag(args[1])?),
@@ -198,6 +211,8 @@ impl Op {
                     "maskedoutshort" => Bad::MaskedOutShort(m(1)?, u(2)?),
                     "inshortboth" => Bad::InShortBoth,
                     "outshortboth" => Bad::OutShortBoth,
+                    "alloffoutchans" => Bad::AllOffOutChans(d(1)?),
+                    "alloffinchans" => Bad::AllOffInChans(d(1)?),
                     _ => return Err(err()),
                 })
             }
@@ -209,7 +224,7 @@ impl Op {
     pub fn is_processing(&self) -> bool {
         matches!(
             self,
-            Op::P | Op::Px | Op::PP(_) | Op::PM(_, _) | Op::PPM(_, _, _) | Op::W | Op::WP(_)
+            Op::P | Op::Px | Op::Pa | Op::PP(_) | Op::PM(_, _) | Op::PPM(_, _, _) | Op::W | Op::WP(_)
         )
     }
 }
